@@ -490,6 +490,90 @@ def _qq(ctx, prog, m, c, calls):
         ctx.ob("C16.4", c.qual + "._plot_core", ok2, "QQ: x is the observation series, y the forecast series", loc=prog.loc(m, k["node"]), msg="QQ axes swapped or identical")
 
 
+NAN_SWALLOWING = {"nansum", "nanmean", "nan_to_num", "nanmax", "nanmin", "nanmedian", "nanprod", "nanstd", "nanvar", "nancumsum",
+                  "call:numpy.nansum", "call:numpy.nanmean", "call:numpy.nan_to_num", "call:numpy.nanmax", "call:numpy.nanmin",
+                  "call:numpy.nanmedian", "call:numpy.nanprod", "call:numpy.nancumsum", "call:numpy.nanstd", "call:numpy.nanvar",
+                  "mafilled", "call:numpy.ma.filled"}
+
+
+def _fix_flag(value, name, truth):
+    """The value with the boolean attribute ``name`` fixed (conditional expressions on it resolved)."""
+    def fn(at):
+        if at.func == "ifexp" and isinstance(at.args[0], Rat):
+            k = at.args[0].key()
+            if k == name:
+                return at.args[1] if truth else at.args[2]
+            if k == "not(%s)" % name:
+                return at.args[2] if truth else at.args[1]
+        return None
+    try:
+        return form.map_atoms(value, fn)
+    except form.Undefined:
+        return value
+
+
+def check_standard_xy(ctx):
+    """Standard line plots (-m <metric> -x <axis>): column f of the drawn matrix is the metric of input f, and an undefined score stays
+    undefined.  The matrix returned by Standard._get_x_y is folded symbolically and taken apart with -acc off: every value written to
+    column f comes from metric.compute(data, f, axis, interval) with the SAME f, over the intervals of the -r thresholds, and no
+    NaN-discarding reduction (nansum, nanmean, nan_to_num, ...) stands between the metric and the drawn value - that would draw a
+    number (0 for nansum) where the score does not exist."""
+    prog = ctx.prog
+    site = "verif.output.Standard._get_x_y"
+    m = prog.module("verif.output")
+    f = prog.own_method(site)
+    ev = symeval.Evaluator(m)
+    ev.loop_mode = "unroll2"
+    ev.merge_ifs = True
+    try:
+        outs = [o for o in ev.run(f) if o.kind == "return"]
+    except symeval.Undecided as e:
+        raise AnalysisError("%s: cannot be folded (%s)" % (site, e))
+    ctx.need(outs, "%s: no return value" % site)
+    n = 0
+    for o in outs:
+        v = o.value
+        ctx.need(isinstance(v, (list, tuple)) and len(v) >= 2 and isinstance(v[1], Rat), "%s: the second returned value (y) is not an array expression" % site)
+        y = _fix_flag(v[1], "$self.show_acc", False)
+        loc = prog.loc(m, o.node)
+        comp = [a for a in q.atoms(y) if a.func.endswith("_metric.compute") or a.func == "m:compute"]
+        ctx.need(comp, "%s: no metric.compute(...) call reaches the returned matrix" % site)
+        # (a) NaN-preserving
+        bad = [a for a in q.atoms(y) if a.func in NAN_SWALLOWING and any(("_metric.compute" in x.key() or "m:compute" in x.key()) for x in a.args if isinstance(x, Rat))]
+        bad += [a for a in q.atoms(y) if a.func in NAN_SWALLOWING and any(isinstance(x, tuple) and q.mentions(x, "_metric.compute") for x in a.args)]
+        n += 1
+        ctx.ob("C16.6", site, not bad, "an undefined score stays undefined in the drawn matrix (no NaN-discarding reduction on the metric's values, -acc off)",
+               loc=loc, msg="the metric's values pass through %s before they are drawn: a threshold/point where the score is undefined is drawn as a number"
+                            % sorted(set(a.func for a in bad)), sample={"rule": "C16.6", "site": site, "compute_calls": len(comp)})
+        # (b) column f <- input f: walk the setitem chain of the matrix
+        cur, cols = y, []
+        while True:
+            at = cur.as_atom("setitem") if isinstance(cur, Rat) else None
+            if at is None:
+                break
+            cols.append((at.args[1], at.args[2]))
+            cur = at.args[0]
+        ctx.need(cols, "%s: the returned matrix is not filled column by column" % site)
+        for ix, val in cols:
+            last = ix[-1] if isinstance(ix, tuple) and ix and ix[0] != "slice" else ix
+            calls = [a for a in q.atoms(val) if a.func.endswith("_metric.compute") or a.func == "m:compute"]
+            inputs = set(a.args[1].key() for a in calls if len(a.args) > 1 and isinstance(a.args[1], Rat))
+            lk = last.key() if isinstance(last, Rat) else str(last)
+            n += 1
+            ctx.ob("C16.6", site, bool(calls) and inputs == {lk}, "column [%s] of the matrix holds the metric of input %s" % (lk, lk), loc=loc,
+                   msg="column %s of the drawn matrix is computed from input(s) %s" % (lk, sorted(inputs)), expected=lk, found=sorted(inputs))
+            ivs = set()
+            for a in calls:
+                if len(a.args) > 3 and isinstance(a.args[3], Rat):
+                    g = a.args[3].as_atom("getitem")
+                    ivs.add(g.args[0].key() if g is not None and isinstance(g.args[0], Rat) else a.args[3].key())
+            ok_iv = bool(ivs) and all("get_intervals(" in k for k in ivs)
+            n += 1
+            ctx.ob("C16.6", site, ok_iv, "the metric is evaluated on the intervals of the -r thresholds (util.get_intervals(bin_type, thresholds))", loc=loc,
+                   msg="the interval handed to metric.compute is %s" % sorted(k[:80] for k in ivs))
+    ctx.floor("C16.6", 5)
+
+
 def run(ctx):
     ctx.rule("C16.1", "series <-> input <-> label index discipline; obsfcst column layout written = read")
     ctx.rule("C16.2", "binning loops over consecutive edges are half-open; probability bins include the top edge")
@@ -502,17 +586,20 @@ def run(ctx):
     check_annotations(ctx)
     check_coselection(ctx)
     check_plot_args(ctx)
+    ctx.rule("C16.6", "standard line plots: column f = metric of input f over the -r intervals; undefined scores are not replaced by numbers")
+    check_standard_xy(ctx)
     ctx.note("UNCOVERED for C16.4: fss, auto*, timeseries, meteo, against, hist/sort (C07.8), maps, rank, impact, reliability/discrimination series values, "
              "economic value, murphy, marginal, freq (C07.8), spread-skill, change, cond, pithist, bsdecomp, igncontrib")
 
 
 CLAIM = {
     "level": "Partial, structural: index discipline of series/inputs/labels in all 33 output classes, written-vs-read column layout of obsfcst, "
-             "comparison shape of every binning loop (half-open, top edge of probability bins), annotation key wiring, and the x/y argument pair "
-             "of six diagrams. These are necessary conditions visible in the code; the coordinates of drawn artists are runtime quantities and "
+             "comparison shape of every binning loop (half-open, top edge of probability bins), annotation key wiring, the x/y argument pair "
+             "of six diagrams, and the column/input/NaN discipline of standard line plots. These are necessary conditions visible in the code; the coordinates of drawn artists are runtime quantities and "
              "most diagrams' series values are explicitly UNCOVERED.",
     "note": "Trusted: CPython ast, vsa SHAPE/FORM engines, matplotlib. Known findings: probability bins of reliability / discrimination / "
             "ignorance-contribution drop cases with p = 1.",
     "technique": "static analysis: loop-index discipline lint, normal-form comparison of index polynomials, comparison-shape evaluation of bin "
-                 "tests over the finite order-relation domain, key/value wiring, drawing-call argument extraction by symbolic folding",
+                 "tests over the finite order-relation domain, key/value wiring, drawing-call argument extraction by symbolic folding; C16.6 the matrix returned by Standard._get_x_y "
+                 "folded and taken apart (column f <- metric.compute(data, f, ...), -r intervals, no NaN-discarding reduction)",
 }
